@@ -656,16 +656,6 @@ carquet_status_t parquet_parse_file_metadata(
         return dec.status;
     }
 
-    /* FileMetaData.schema is a required field and always holds at least the
-     * root element. Without this check an empty struct (a single STOP byte)
-     * passes as the footer of an empty table, so a file cut right behind
-     * user data that happens to read 00 01 00 00 00 "PAR1" opens 'fine'. */
-    if (metadata->num_schema_elements < 1 || !metadata->schema) {
-        CARQUET_SET_ERROR(error, CARQUET_ERROR_INVALID_METADATA,
-            "File metadata has no schema");
-        return CARQUET_ERROR_INVALID_METADATA;
-    }
-
     return CARQUET_OK;
 }
 
